@@ -210,7 +210,7 @@ static void run_actions(int self, volatile uint64_t* can) {
         if (a->a != self) die("actor-mismatch-init", a->a, self);
         int c = a->b;
         pc = step + 1;
-        memset(&ctx[c], 0, sizeof(ctx[c]));
+        memset(&ctx[c], 0xA5, sizeof(ctx[c])); /* the API does not require zeroed storage */
         init_gen++;
         in_lib = 1; lib_ctx = c;
         int r = fiber_context_init(&ctx[c], (size_t)a->size, ctx_entry, (void*)(uintptr_t)a->arg);
